@@ -451,3 +451,14 @@ func sortedKeys[V any](m map[string]V) []string {
 	sort.Strings(ks)
 	return ks
 }
+
+// idxAdd builds off+idx for array indexing without folding a zero index away,
+// so that the term keeps the shape quantifier triggers are looking for.
+func idxAdd(off, idx string) string {
+	if _, ok := isNumLit(off); ok {
+		if _, ok2 := isNumLit(idx); ok2 {
+			return mkAdd(off, idx)
+		}
+	}
+	return "(+ " + off + " " + idx + ")"
+}
